@@ -232,6 +232,57 @@ mod verif_driver_reduce {
         println!("VERIF-CASES fn=into_assets n={n}");
     }
 
+    // ---- C14: the coercions (`into_assets`, `into_datum`, and the `EvalCoerce` operations that call them from `reduce`) are
+    // total: every operand shape a client-sent IR or an applied input can hold gives Ok or Err - an EMPTY UTxO set included
+    // (an input query may be answered with no UTxO at all).  Where a datum is read from a set of one UTxO it is that UTxO's.
+    // BOUND: 22 operand shapes x 4 coercions x (direct call, through reduce).
+    #[test]
+    fn coercions_are_total() {
+        use crate::model::assets::CanonicalAssets;
+        use crate::model::core::{Utxo, UtxoRef};
+        let mut n = 0;
+        let mk = |k: u8, datum: Option<Expression>| Utxo { r#ref: UtxoRef { txid: vec![k; 32], index: k as u32 }, address: vec![0x61; 29], datum, script: None, assets: CanonicalAssets::from_naked_amount(5) };
+        let set = |v: Vec<Utxo>| Expression::UtxoSet(v.into_iter().collect::<HashSet<_>>());
+        let operands: Vec<(&str, Expression)> = vec![
+            ("None", Expression::None), ("Number", num(1)), ("Bool", Expression::Bool(true)), ("String", Expression::String("s".into())),
+            ("Bytes", Expression::Bytes(vec![1])), ("empty Bytes", Expression::Bytes(vec![])), ("Address", Expression::Address(vec![0x61; 29])), ("Hash", Expression::Hash(vec![2; 28])),
+            ("empty UtxoRefs", Expression::UtxoRefs(vec![])), ("UtxoRefs", Expression::UtxoRefs(vec![UtxoRef { txid: vec![1; 32], index: 0 }])),
+            ("empty UtxoSet", set(vec![])), ("UtxoSet of one without datum", set(vec![mk(1, None)])), ("UtxoSet of one with datum", set(vec![mk(1, Some(num(42)))])),
+            ("UtxoSet of three", set(vec![mk(3, Some(num(3))), mk(1, None), mk(2, Some(num(2)))])),
+            ("empty Assets", Expression::Assets(vec![])), ("Assets", Expression::Assets(vec![AssetExpr { policy: Expression::None, asset_name: Expression::None, amount: num(5) }])),
+            ("empty List", Expression::List(vec![])), ("List", Expression::List(vec![num(1)])), ("empty Map", Expression::Map(vec![])), ("Tuple", Expression::Tuple(Box::new((num(1), num(2))))),
+            ("Struct", Expression::Struct(StructExpr { constructor: 0, fields: vec![] })), ("a pending parameter", marker("p")),
+        ];
+        for (desc, operand) in &operands {
+            for (cname, direct, op) in [
+                ("into_assets", Some(0u8), Coerce::IntoAssets(operand.clone())),
+                ("into_datum", Some(1u8), Coerce::IntoDatum(operand.clone())),
+                ("into_script", None, Coerce::IntoScript(operand.clone())),
+                ("no_op", None, Coerce::NoOp(operand.clone())),
+            ] {
+                n += 1;
+                if let Some(which) = direct {
+                    let o = operand.clone();
+                    match quiet(move || if which == 0 { o.into_assets() } else { o.into_datum() }) {
+                        Err(p) => witness(&format!("c14_tir/Expression::{cname}#reachable-panic"), cname, format!("operand: {desc} class=coercion-of-{}", desc.replace(' ', "-")), format!("panic:{}", p.chars().take(100).collect::<String>()), "Ok or Err"),
+                        Ok(r) => {
+                            if which == 1 && *desc == "UtxoSet of one with datum" && !matches!(r, Ok(Expression::Number(42))) {
+                                witness("c14_tir/Expression::into_datum#postcondition", cname, format!("operand: {desc}"), format!("{r:?}").chars().take(100).collect(), "the datum of the one UTxO in the set");
+                            }
+                        }
+                    }
+                }
+                let e = Expression::EvalCoerce(Box::new(op));
+                if let Err(p) = quiet(move || e.reduce()) {
+                    witness("c14_tir/Coerce::reduce#reachable-panic", "reduce", format!("reduce of the coercion {cname} applied to: {desc} class=coercion-of-{}", desc.replace(' ', "-")), format!("panic:{}", p.chars().take(100).collect::<String>()), "Ok or Err");
+                }
+            }
+        }
+        println!("VERIF-CASES fn=into_assets n={n}");
+        println!("VERIF-CASES fn=into_datum n={n}");
+        println!("VERIF-CASES fn=reduce n={n}");
+    }
+
     // ---- C07 / C06: `reduce` reaches every position (a foldable operation is folded wherever it sits), and a template
     // without parameters, queries, fee markers and pending operations IS constant (so that it can be compiled)
     #[test]
